@@ -18,9 +18,34 @@ import (
 	"fmt"
 	"os"
 	"strconv"
+	"strings"
 	"sync"
 	"time"
 )
+
+var vLogOff int64
+
+const vLogFile = "/tmp/cdc_log/cdc.log" // core/log writes here (and to stdout)
+
+// vLogMark / vLogLeaks: natively the log FILE written by the real zap logger is read
+// back; under the executor every value handed to a logging sink is examined.
+func vLogMark() {
+	vLogOff = 0
+	if fi, err := os.Stat(vLogFile); err == nil {
+		vLogOff = fi.Size()
+	}
+}
+func vLogLeaks(secret string) bool {
+	b, _ := os.ReadFile(vLogFile)
+	if int64(len(b)) < vLogOff {
+		vLogOff = 0
+	}
+	return secret != "" && strings.Contains(string(b[vLogOff:]), secret)
+}
+func vLeaks(v interface{}, secret string) bool {
+	b, _ := json.Marshal(v)
+	return secret != "" && strings.Contains(string(b), secret)
+}
 
 type vReplayFile struct {
 	Entry   string                 ` + "`json:\"entry\"`" + `
